@@ -16,3 +16,20 @@ package oc
 //@   claims frame post
 //@   modifies nothing
 //@   ensures result != nil && fresh(result)
+
+// from C03 "under every route-selection option": a confederation that is configured but not enabled plays no part -
+// no AS is a member of it, so no source is classified as internal to it (compareByASNumber reads that classification)
+//@ props C03
+//@ func (*Global).IsConfederationMember
+//@   requires g != nil
+//@   claims post
+//@   ensures result ==> g.Confederation.Config.Enabled
+
+// from C08 "the OPEN sent reflects the configuration": what a neighbour configures for graceful restart is looked up
+// under the key its configuration section has ("graceful-restart", the mapstructure tag of Neighbor.GracefulRestart)
+// when deciding which of its fields the peer group may fill in - looked up under any other key, every field counts as
+// unset and the peer group's value replaces it
+//@ props C08
+//@ func OverwriteNeighborConfigWithPeerGroup
+//@   claims at-call
+//@   at-call ^overwriteConfig(&c.GracefulRestart.Config requires arg2 == "neighbor.graceful-restart.config"
